@@ -1467,6 +1467,8 @@ pub struct MResult {
   /// per recorder: did it end (terminal or unsubscribe) before the sentinel round
   pub ended: Vec<bool>,
   pub reactions_fired: Vec<(usize, usize)>,
+  /// after every action: number of live observers registered in every hot source
+  pub subj_timeline: Vec<Vec<usize>>,
 }
 
 struct MShared {
@@ -1566,6 +1568,7 @@ pub fn run_model(case: &Case, conv: Conv) -> Result<MResult, ModelErr> {
     fired: RefCell::new(Vec::new()),
   });
   let mut unsubbed = vec![false; nrec];
+  let mut subj_timeline: Vec<Vec<usize>> = Vec::new();
   for a in &case.actions {
     match a {
       Action::Subscribe(k) => m_subscribe(&sh, *k),
@@ -1582,6 +1585,7 @@ pub fn run_model(case: &Case, conv: Conv) -> Result<MResult, ModelErr> {
     if env.failed() {
       break;
     }
+    subj_timeline.push(env.hots.iter().map(|h| h.subs.borrow().iter().filter(|o| o.alive()).count()).collect());
   }
   if let Some(e) = env.err.borrow().clone() {
     return Err(e);
@@ -1628,5 +1632,5 @@ pub fn run_model(case: &Case, conv: Conv) -> Result<MResult, ModelErr> {
   let traces = sh.traces.borrow().clone();
   let tap_log = env.tap_log.borrow().clone();
   let fired = sh.fired.borrow().clone();
-  Ok(MResult { traces, sub_counts: sc, factory_calls: fc, tap_log, probes, ended, reactions_fired: fired })
+  Ok(MResult { traces, sub_counts: sc, factory_calls: fc, tap_log, probes, ended, reactions_fired: fired, subj_timeline })
 }
